@@ -186,7 +186,7 @@ def run(v) -> None:
               "non-default frame or a declination within 1 degree of 0")
     v.assumptions += ["doubles compared as their 8 bytes (struct.pack of the parsed float is exact)",
                       "coordinates to 0.01 arcsec in Dec, 0.015 arcsec in RA (SIGPROC keeps 4 decimals of hhmmss.ssss)"]
-    v.add_tlc(tlc.must_pass(tlc.run("MC_SigprocCodec", "MC_SigprocCodec.cfg", workers=8, timeout=3000), "MC_SigprocCodec"), "MC_SigprocCodec")
+    v.add_tlc(tlc.must_pass(tlc.run("MC_SigprocCodec", "MC_SigprocCodec.cfg" if quick else "MC_SigprocCodec_big.cfg", workers=8, timeout=6000), "MC_SigprocCodec"), "MC_SigprocCodec")
     v.add_tlc(tlc.must_pass(tlc.run("MC_HeaderFields", "MC_HeaderFields.cfg", workers=4), "MC_HeaderFields"), "MC_HeaderFields")
     tlc.must_fail(tlc.run("MC_HeaderFields", "MC_HeaderFields_pinframe.cfg", workers=2), "pinned frame decoder", "FrameRoundTrip")
     tlc.must_fail(tlc.run("MC_HeaderFields", "MC_HeaderFields_pinangle.cfg", workers=2), "pinned angle decoder", "AngleRoundTrip")
